@@ -386,8 +386,7 @@ class Interp:
             n_in = len([n for n in impl.io_nodes if len(n.ins) == 0])
             n_out = len(impl.io_nodes) - n_in
             cand = [k for k, v in m.nodes.items() if not k[1] and k not in m.io and len(v['ins']) <= n_in and v['kind'] == 'MYCELL'
-                    and all(x is not None for x in v['outs']) and len(v['outs']) == n_out
-                    and not any(kk[0].startswith(k[0] + '~') for kk in m.nodes)]
+                    and len(v['outs']) <= n_out and not any(kk[0].startswith(k[0] + '~') for kk in m.nodes)]
             if cand:
                 k = cand[a % len(cand)]
                 before = canon_circuit(c)
@@ -402,8 +401,8 @@ class Interp:
                         raise Violation(f'substitute({k[0]}) removed untouched node {kk}')
                     if after[0][kk][0] != v[0]:
                         raise Violation(f'substitute({k[0]}) changed the kind of untouched node {kk}')
-                if k not in after[0]:
-                    raise Violation(f'substitute({k[0]}): the instance name is gone although the implementation has a cell driving an output')
+                if k not in after[0] and all(x is not None for x in m.nodes[k]['outs']) and len(m.nodes[k]['outs']) == n_out:
+                    raise Violation(f'substitute({k[0]}): the instance name is gone although all outputs are connected')
                 if after[1] != before[1]:
                     raise Violation(f'substitute({k[0]}) changed the port list')
                 self.rederive()
